@@ -23,4 +23,6 @@ SafeScripts == IF NSeg = 0 THEN StepsOnly(3)
 \* receiver: no error, or exactly one position (init = 0, first / second media) of one representation answered 5xx
 NoErr == {{}}
 OneErr == {{}} \cup {{<<z, r, k>>} : z \in Sess, r \in Reps, k \in 0..2}
+\* two sessions (thorough): errors only in session 1, at the init or the first media request
+OneErr1 == {{}} \cup {{<<1, r, k>>} : r \in Reps, k \in 0..1}
 =============================================================================
